@@ -16,7 +16,7 @@ RULE = ('ITML and ITML_Supervised on generated pair sets (both labels, non-colla
         'at return, or the prior-feasible case; distinct by canonical case.')
 ASSUMPTIONS = ['stationarity residual ||M (M0^-1 + sum y_i lambda_i v_i v_i^T) - I|| <= 1e-3 asserted when cond(M) < 1e8',
                'convergence clauses (feasibility, complementary slackness at 1e-4) asserted only when n_iter_ < max_iter - 1 with tol = 1e-10',
-               'known finding KF1: NonPSDError on large-scale data with a non-covariance prior']
+               'known finding KF1: loss of positive definiteness / NonPSDError when some Bregman projection must move a distance by a factor kappa > 1e6 (large-scale data, or default bounds whose 5th percentile is 0 -> 1e-9)']
 
 
 @st.composite
@@ -83,8 +83,25 @@ def check_c11(case, stats):
       b = [hi * 1.5 + 1e-3, lo * 0.5]
     kw['bounds'] = np.array(b, dtype=float)
   est = E.build(name, params)
+  # bounds the fit will use (documented default: 5th / 95th percentile of all pairwise distances between the
+  # distinct points, zeros replaced by 1e-9) and the largest factor by which a projection must move a distance
+  if 'bounds' in kw:
+    b_exp = np.where(kw['bounds'] == 0, 1e-9, kw['bounds'])
+  else:
+    U = np.unique(P.reshape(-1, d), axis=0)
+    Dm = np.sqrt(((U[:, None, :] - U[None, :, :]) ** 2).sum(-1))
+    b_exp = np.percentile(Dm, (5, 95))
+    b_exp = np.where(b_exp == 0, 1e-9, b_exp)
+  xi0e = np.where(delta > 0, b_exp[0], b_exp[1])
+  kappa = float(max(1.0, np.where(delta > 0, p0 / xi0e, xi0e / np.maximum(p0, 1e-300)).max()))
+  ill = kappa > 1e6
   with observe.frame_locals_at_return('itml', '_BaseITML', '_fit', ['_lambda', 'pos_bhat', 'neg_bhat']) as loc:
-    r = E.fit_call('C11/fit', name, est, fargs, case['desc'], params, kw=kw, report_kf=True)
+    try:
+      r = call('C11/fit/' + name, est.fit, *fargs, **kw)
+    except Violation as v:
+      if v.sig.endswith('raises-NonPSDError') and ill:
+        raise Violation('C11/fit/%s/raises-NonPSDError/kappa>1e6' % name, v.msg)
+      raise
   if '_lambda' not in loc:
     raise Violation('C11/no-dual-variables', '_fit frame did not expose _lambda')
   lam = np.asarray(loc['_lambda'], dtype=float)
@@ -97,13 +114,14 @@ def check_c11(case, stats):
     raise Violation('C11/symmetric/' + tag, 'asymmetry %g' % np.abs(M - M.T).max())
   w = np.linalg.eigvalsh(M)
   if w.min() <= 0:
-    raise Violation('C11/positive-definite/' + tag, 'lambda_min(M) = %g' % w.min())
+    raise Violation('C11/positive-definite/%s%s' % ('kappa>1e6/' if ill else '', tag if not ill else name),
+                    'lambda_min(M) = %g (kappa %g)' % (w.min(), kappa))
   if (lam < 0).any():
     raise Violation('C11/dual-nonnegative/' + tag, 'min lambda = %g' % lam.min())
   bounds_ = np.asarray(est.bounds_, dtype=float)
   xi0 = np.where(delta > 0, bounds_[0], bounds_[1])
-  if 'bounds' in kw and not np.allclose(bounds_, np.where(kw['bounds'] == 0, 1e-9, kw['bounds'])):
-    raise Violation('C11/bounds-not-used/' + tag, 'bounds_ %s vs given %s' % (bounds_, kw['bounds']))
+  if not np.allclose(bounds_, b_exp, rtol=1e-6, atol=0):
+    raise Violation('C11/bounds/' + tag, 'bounds_ %s vs documented %s' % (bounds_, b_exp))
   # slack stationarity 1/xi = 1/xi0 - y lambda / gamma
   lhs = 1.0 / xi
   rhs = 1.0 / xi0 - delta * lam / gamma
@@ -112,9 +130,7 @@ def check_c11(case, stats):
   cond = w.max() / w.min()
   # a Bregman projection that moves a distance by the factor kappa loses ~eps*kappa of relative accuracy
   # (1 + beta*p is formed by cancellation): how far the prior is from the bounds limits what can be certified
-  ratio = np.where(delta > 0, p0 / xi0, xi0 / np.maximum(p0, 1e-300))
-  kappa = float(max(1.0, ratio.max()))
-  if kappa > 1e6:
+  if ill:
     stats.inconclusive['prior violates a bound by a factor > 1e6 (stationarity not certifiable in double precision)'] += 1
   elif cond < 1e8:
     S = Pinv0 + (V.T * (delta * lam)).dot(V)
